@@ -1,4 +1,5 @@
 #include "system/ReaderWriterMutex.h"
+#include "support/VerifHooks.h"
 
 namespace muscle {
 
@@ -21,10 +22,12 @@ status_t ReaderWriterMutex :: LockReadOnlyAux(uint64 optTimeoutTimestamp) const
    {
       // Easy case:  we already have at least read-only access, so just increase our read-only-recursion-count and we are done
       ts->_readOnlyRecurseCount++;
+      MUSCLE_VERIF_EVENT("AcqR", this, 0, _executingThreads.GetNumItems(), _waitingReaderThreads.GetNumItems(), _waitingWriterThreads.GetNumItems());
       return B_NO_ERROR;
    }
    else if (IsOkayForReaderThreadsToExecuteNow() == false)
    {
+      if (optTimeoutTimestamp == 0) MUSCLE_VERIF_EVENT("FailR", this, 0, _executingThreads.GetNumItems(), _waitingReaderThreads.GetNumItems(), _waitingWriterThreads.GetNumItems());
       if (optTimeoutTimestamp == 0) return B_TIMED_OUT; // No point Wait()-ing if we know it's going to fail anyway
 
       // Oops, some other thread has the write-lock currently, so we'll have to Wait() until that thread has released it
@@ -32,6 +35,7 @@ status_t ReaderWriterMutex :: LockReadOnlyAux(uint64 optTimeoutTimestamp) const
       if (ts == NULL) return B_OUT_OF_MEMORY;
 
       RefCountableWaitConditionRef tempWCRef = ts->_waitConditionRef;  // avoid race condition after we unlock _stateMutex below
+      MUSCLE_VERIF_EVENT("QueueR", this, 0, _executingThreads.GetNumItems(), _waitingReaderThreads.GetNumItems(), _waitingWriterThreads.GetNumItems());
       mg.UnlockEarly();   // necessary because we don't want to be holding this mutex while we Wait() for possibly a long time
 
       while(true)
@@ -43,6 +47,7 @@ status_t ReaderWriterMutex :: LockReadOnlyAux(uint64 optTimeoutTimestamp) const
          {
             (void) _waitingReaderThreads.Remove(tid);  // clean up!
             MaybeNotifySomeWaitingThreads();  // avoid a potential stall after a B_TIMED_OUT
+            MUSCLE_VERIF_EVENT("FailR", this, 1, _executingThreads.GetNumItems(), _waitingReaderThreads.GetNumItems(), _waitingWriterThreads.GetNumItems());
             return ret;
          }
          else if (IsOkayForReaderThreadsToExecuteNow())  // check if we got scooped by another thread
@@ -60,6 +65,7 @@ status_t ReaderWriterMutex :: LockReadOnlyAux(uint64 optTimeoutTimestamp) const
             else ret = B_OUT_OF_MEMORY;
 
             (void) _waitingReaderThreads.Remove(tid);
+            if (ret.IsOK()) MUSCLE_VERIF_EVENT("AcqR", this, 1, _executingThreads.GetNumItems(), _waitingReaderThreads.GetNumItems(), _waitingWriterThreads.GetNumItems());
             if (ret.IsError()) MaybeNotifySomeWaitingThreads();  // avoid a potential stall on OOM
 
             return ret;
@@ -71,6 +77,7 @@ status_t ReaderWriterMutex :: LockReadOnlyAux(uint64 optTimeoutTimestamp) const
       // Nobody is currently holding the writer-lock, so we can just register and start executing immediately
       ts = GetOrAllocateThreadState(_executingThreads, tid, false);
       if (ts) ts->_readOnlyRecurseCount++;
+      if (ts) MUSCLE_VERIF_EVENT("AcqR", this, 2, _executingThreads.GetNumItems(), _waitingReaderThreads.GetNumItems(), _waitingWriterThreads.GetNumItems());
       return ts ? B_NO_ERROR : B_OUT_OF_MEMORY;
    }
 #endif
@@ -98,6 +105,7 @@ status_t ReaderWriterMutex :: LockReadWriteAux(uint64 optTimeoutTimestamp) const
          // Easy cases:  just increment the read-write-recurse-counts and we're done
          ts->_readWriteRecurseCount++;
          _totalReadWriteRecurseCount++;
+         MUSCLE_VERIF_EVENT("AcqW", this, 0, _executingThreads.GetNumItems(), _waitingReaderThreads.GetNumItems(), _waitingWriterThreads.GetNumItems());
          return B_NO_ERROR;
       }
       else
@@ -105,8 +113,10 @@ status_t ReaderWriterMutex :: LockReadWriteAux(uint64 optTimeoutTimestamp) const
          // tricky case:  we already have read-only access and we want to upgrade to read/write access
          // but there are other read-only threads executing so we need to Wait() until they are done
          // To avoid potential deadlocks, I'm going to just release all of our read-only locks and then re-lock everything
+         if (optTimeoutTimestamp == 0) MUSCLE_VERIF_EVENT("FailW", this, 2, _executingThreads.GetNumItems(), _waitingReaderThreads.GetNumItems(), _waitingWriterThreads.GetNumItems());
          if (optTimeoutTimestamp == 0) return B_TIMED_OUT; // No point releasing our read-only locks if we know the upgrade can't succeed without Wait()-ing
          const uint32 readOnlyRecurseCount = ts->_readOnlyRecurseCount;
+         MUSCLE_VERIF_EVENT("UpgradeBegin", this, ts->_readOnlyRecurseCount, _executingThreads.GetNumItems(), _waitingReaderThreads.GetNumItems(), _waitingWriterThreads.GetNumItems());
          mg.UnlockEarly();
 
          for (uint32 i=0; i<readOnlyRecurseCount; i++) MRETURN_ON_ERROR(UnlockReadOnly());
@@ -133,12 +143,14 @@ status_t ReaderWriterMutex :: LockReadWriteAux(uint64 optTimeoutTimestamp) const
       {
          ts->_readWriteRecurseCount++;
          _totalReadWriteRecurseCount++;
+         MUSCLE_VERIF_EVENT("AcqW", this, 2, _executingThreads.GetNumItems(), _waitingReaderThreads.GetNumItems(), _waitingWriterThreads.GetNumItems());
       }
 
       return ts ? B_NO_ERROR : B_OUT_OF_MEMORY;
    }
    else
    {
+      if (optTimeoutTimestamp == 0) MUSCLE_VERIF_EVENT("FailW", this, 0, _executingThreads.GetNumItems(), _waitingReaderThreads.GetNumItems(), _waitingWriterThreads.GetNumItems());
       if (optTimeoutTimestamp == 0) return B_TIMED_OUT; // No point Wait()-ing if we know it's going to fail anyway
 
       // Oops, some other threads are executing, so we'll have to Wait() until they have all gone away
@@ -146,6 +158,7 @@ status_t ReaderWriterMutex :: LockReadWriteAux(uint64 optTimeoutTimestamp) const
       if (ts == NULL) return B_OUT_OF_MEMORY;
 
       RefCountableWaitConditionRef tempWCRef = ts->_waitConditionRef;  // avoid race condition on (ts) after we unlock _stateMutex below
+      MUSCLE_VERIF_EVENT("QueueW", this, 0, _executingThreads.GetNumItems(), _waitingReaderThreads.GetNumItems(), _waitingWriterThreads.GetNumItems());
       mg.UnlockEarly();   // necessary because we don't want to be holding this mutex while we Wait() for possibly a long time
 
       while(true)
@@ -157,6 +170,7 @@ status_t ReaderWriterMutex :: LockReadWriteAux(uint64 optTimeoutTimestamp) const
          {
             (void) _waitingWriterThreads.Remove(tid);  // clean up!
             MaybeNotifySomeWaitingThreads();  // avoid a potential stall after a B_TIMED_OUT
+            MUSCLE_VERIF_EVENT("FailW", this, 1, _executingThreads.GetNumItems(), _waitingReaderThreads.GetNumItems(), _waitingWriterThreads.GetNumItems());
             return ret;
          }
          else if (IsOkayForWriterThreadToExecuteNow(tid))
@@ -179,6 +193,7 @@ status_t ReaderWriterMutex :: LockReadWriteAux(uint64 optTimeoutTimestamp) const
             else ret = B_LOGIC_ERROR;  // should never happen, but we're paranoid
 
             (void) _waitingWriterThreads.Remove(tid);   // RemoveFirst() would also work here but it makes Claude nervous
+            if (ret.IsOK()) MUSCLE_VERIF_EVENT("AcqW", this, 1, _executingThreads.GetNumItems(), _waitingReaderThreads.GetNumItems(), _waitingWriterThreads.GetNumItems());
             if (ret.IsError()) MaybeNotifySomeWaitingThreads();  // avoid a potential stall on OOM
             return ret;
          }
@@ -210,6 +225,7 @@ status_t ReaderWriterMutex :: UnlockReadOnlyAux() const
    ThreadState * ts = _executingThreads.Get(tid); // threads that currently have either read-only or read/write access
    if ((ts == NULL)||(ts->_readOnlyRecurseCount == 0)) return B_LOCK_FAILED;  // can't release a read-only lock if our thread doesn't have one!
 
+   MUSCLE_VERIF_EVENT("RelR", this, 0, _executingThreads.GetNumItems(), _waitingReaderThreads.GetNumItems(), _waitingWriterThreads.GetNumItems());
    if ((--ts->_readOnlyRecurseCount == 0)&&(ts->_readWriteRecurseCount == 0))
    {
       (void) _executingThreads.Remove(tid);  // invalidates (ts)
@@ -237,6 +253,7 @@ status_t ReaderWriterMutex :: UnlockReadWriteAux() const
 
    MASSERT(_totalReadWriteRecurseCount > 0, "ReaderWriterMutex::UnlockReadWriteAux():  _totalReadWriteRecurseCount was already zero!?");
 
+   MUSCLE_VERIF_EVENT("RelW", this, 0, _executingThreads.GetNumItems(), _waitingReaderThreads.GetNumItems(), _waitingWriterThreads.GetNumItems());
    const uint32 tsReadOnlyRecurseCount = ts->_readOnlyRecurseCount;  // save this here in case (ts) gets invalidated on the next line
    if ((--ts->_readWriteRecurseCount == 0)&&(tsReadOnlyRecurseCount == 0)) (void) _executingThreads.Remove(tid);  // invalidates (ts)
    if (--_totalReadWriteRecurseCount == 0)
